@@ -10,6 +10,13 @@ Z3_OLD = '/usr/bin/z3'
 
 def to_smt2(hyps, goal):
     s = z3.Solver()
+    # z3's printer declares datatypes in order of first occurrence and does not look inside array sorts of datatype fields:
+    # mention every registered sort once, in creation order (inner sorts are created first), so that declarations are ordered
+    from . import ty
+    for key, parts in list(ty._sorts.items()):
+        srt = parts[0]
+        if srt.kind() == z3.Z3_DATATYPE_SORT:
+            c = z3.Const('sortorder_' + str(abs(hash(key)) % 10 ** 8), srt); s.add(c == c)
     for h in hyps: s.add(h)
     s.add(z3.Not(goal))
     return '(set-logic ALL)\n' + s.to_smt2()
